@@ -50,8 +50,12 @@ def run(chk, prog):
               A.loc(pad, {"line": w.line}), "bunch %s's profile = N values starting at row %s of the [B][N] projection (source %s)" % (b, b, sv),
               "padBunchProfiles:source:%s" % sv)
     chk.check(w.loops[0].lo == 0 and sp.expand(S.norm(w.loops[0].hi) - B) == 0, "R1", A.loc(pad, {"line": w.line}), "all B bunches are placed", "padBunchProfiles:bunch-range")
-    bp = [x for x in A.walk(pad["body"]) if x["k"] == "DeclStmt" for x in x["decls"] if x.get("name") == "bp"]
-    ok = len(bp) == 1 and "getProjection(0)" in A.show(bp[0]["init"]).replace(" ", "") and "_phasespace" in A.show(bp[0]["init"])
+    # the object whose storage is copied (X in X.origin()) is the X projection of the field's own phase space, under whatever name
+    oobj = str(org[0].args[0]).replace(" ", "") if len(org) == 1 and org[0].args else ""
+    ok = oobj in ("getProjection(_phasespace,0)", "getProjection(*_phasespace,0)")
+    if not ok:
+        cand = [x for x in A.walk(pad["body"]) if x["k"] == "DeclStmt" for x in x["decls"] if x.get("name") == oobj and "init" in x]
+        ok = len(cand) == 1 and "getProjection(0)" in A.show(cand[0]["init"]).replace(" ", "") and "_phasespace" in A.show(cand[0]["init"])
     chk.check(ok, "R1", pad.where, "the profiles placed are the current X projection of the field's phase space", "padBunchProfiles:projection")
     rd = [e for e in ev if e.kind == "read" and e.buf == "_wakepotential_padded"]
     st = [e for e in ev if e.kind == "write" and e.buf == "_wakepotential" and isinstance(e.lo, tuple)]
